@@ -573,7 +573,11 @@ static void c07_file_checks(const std::string& F, const std::string& keybase, co
 					std::string info;
 					for (size_t i = 0; i < LENS[var]; i++) info += (char) ('a' + i % 26);
 					hdr.SetExportInfo(info);
-					hdr.SetCreatorInfo(var % 2 ? "verif" : "");
+					// creator string: lengths around what its 1-byte length prefix (which also counts the terminator) can hold
+					static const size_t CLENS[] = {0, 5, 253, 254, 255, 256, 300, 511};
+					std::string creator;
+					for (size_t i = 0; i < CLENS[var % 8]; i++) creator += (char) ('A' + i % 26);
+					hdr.SetCreatorInfo(creator);
 				}
 				if (!applied) break;
 				vf::set_inflight(J(cj).set("edit", e).set("variant", (long long) var).set("raw", raw == 1).dump());
